@@ -57,6 +57,7 @@ type Unit struct {
 	nameCount map[string]int
 	allocs    []allocSite
 	lemmaAx   map[string]bool
+	twoState  []*twoStateLemma // frame lemmas (mention old()): instantiated across every call
 	oblLines  map[int]bool // script lines that assume an earlier obligation's goal
 	assumedAt map[string]int
 	constErrs []string
@@ -817,6 +818,40 @@ func (u *Unit) heapTyping(comp, term string) string {
 		return fmt.Sprintf("(forall ((hr Int) (hk Int)) (! %s :pattern (%s)))", wf, sel)
 	}
 	return ""
+}
+
+// entryClosed: the entry heap is closed under reachability: every reference held by an object that
+// is allocated at entry (pointer, slice backing array) is nil or allocated at entry. Objects allocated later (by the function or,
+// per their contracts, by callees) are therefore distinct from everything the entry heap holds.
+func (u *Unit) entryClosed(comp, term string) string {
+	ty, ok := u.heapTypes[comp]
+	if !ok {
+		return ""
+	}
+	var sel, binders string
+	switch u.heapKinds[comp] {
+	case "field", "cell":
+		sel, binders = fmt.Sprintf("(select %s hr)", term), "((hr Int))"
+	case "elem":
+		sel, binders = fmt.Sprintf("(select (select %s hr) hk)", term), "((hr Int) (hk Int))"
+	default:
+		return ""
+	}
+	ref := ""
+	switch ty.Underlying().(type) {
+	case *types.Pointer:
+		ref = sel
+	case *types.Slice:
+		ref = "(s.base " + sel + ")"
+	default:
+		return ""
+	}
+	u.ensureAllocComp()
+	a0 := q(allocComp + "@0")
+	if !u.declSeen[a0] {
+		u.declare(a0, u.heapSorts[allocComp])
+	}
+	return fmt.Sprintf("(forall %s (! (=> (select %s (refroot hr)) (or (= %s 0) (select %s (refroot %s)))) :pattern (%s)))", binders, a0, ref, a0, ref, sel)
 }
 
 const allocComp = "$alloc"
